@@ -63,9 +63,18 @@ SignEvent(e) ==
      /\ e.out.verify_ok                                                     \* Verify accepts it for its own key and message
      /\ e.out.signer_sig = e.out.sig /\ e.out.signer_err = ""               \* crypto.Signer with crypto.Hash(0)
      /\ e.out.signer_hashed_err # "" /\ e.out.signer_hashed_sig = <<>>      \* refuses pre-hashed input
+     /\ e.out.signer_accepted_hashes = <<>>                                 \* ... for every hash identifier other than 0
+
+\* GenerateKey(reader): the first 32 bytes the reader delivers (however it chunks them) are the seed; as crypto/ed25519
+GenKeyEvent(e) ==
+  /\ e.out.panic = "" /\ e.out.ok = e.out.std_ok
+  /\ e.out.ok => /\ e.out.pub = e.out.std_pub /\ e.out.priv = e.out.std_priv
+                 /\ Len(e.in.seed) >= 32 /\ e.out.priv = SubSeq(e.in.seed, 1, 32) \o e.out.pub
+  /\ (Len(e.in.seed) < 32 \/ e.in.pattern = "short") => ~e.out.ok
 
 Conforms(e) ==
   CASE e.op = "ed.Verify" -> VerifyEvent(e)
+    [] e.op = "ed.GenerateKey" -> GenKeyEvent(e)
     [] e.op = "ed.Sign" -> SignEvent(e)
     [] OTHER -> FALSE
 
